@@ -452,7 +452,7 @@ fn big_gsub(distance: usize) -> Vec<u8> {
 
 /// GSUB with one single-substitution lookup per feature (glyph 1 -> 2 + k for the k-th feature) and a script list built by
 /// the caller. `features`: tags in the order given (must be sorted by tag for a conforming table).
-fn gsub_one_lookup_per_feature(script_list: &[u8], features: &[u32]) -> Vec<u8> {
+pub fn gsub_one_lookup_per_feature(script_list: &[u8], features: &[u32]) -> Vec<u8> {
     let n = features.len();
     let mut fl = W::new();
     fl.u16(n as u16);
